@@ -249,13 +249,17 @@ func judgeC19(c ReqCase) *Fail {
 		for _, w := range x.before.Imp {
 			minImp = math.Min(minImp, w)
 		}
-		shift := 0.0
-		if minImp < 0.01 {
-			shift = 0.01 - minImp
+		// (importance - minimum) + 0.01: subtracting first is exact for the least important criterion whatever the
+		// magnitude of the importances (adding 0.01 - minimum at once would lose the 0.01 beyond 1e14, defect D15)
+		shifted := func(id string) float64 {
+			if minImp < 0.01 {
+				return (x.before.Imp[id] - minImp) + 0.01
+			}
+			return x.before.Imp[id]
 		}
 		total := 0.0
 		for _, id := range x.before.ImpOrder {
-			total += x.before.Imp[id] + shift
+			total += shifted(id)
 		}
 		lo, hi := rng[refC][0], rng[refC][1]
 		half := (hi - lo) / 2
@@ -270,7 +274,7 @@ func judgeC19(c ReqCase) *Fail {
 			}
 			mean := 0.0
 			for _, id := range x.before.ImpOrder {
-				mean += diffs[alt.Id][id] * ((x.before.Imp[id] + shift) / total)
+				mean += diffs[alt.Id][id] * (shifted(id) / total)
 			}
 			want := B(lo + half + half*mean)
 			got, has := na.Vals[a.Id]
